@@ -2,8 +2,11 @@ package rb2
 
 import "github.com/quasilyte/go-ruleguard/dsl"
 
+const kSize = 4
+
 
 func by(m dsl.Matcher) {
 	m.Match(`use($x)`).Where(m["x"].Type.Size == 8).Report(`R5`)
 	m.Match(`{ $*_; use($x) }`).Report(`R6`)
+	m.Match(`$x - $y`).Where(m["x"].Type.Size == kSize).Report(`R7`)
 }
